@@ -3,30 +3,54 @@ import Pkgcore.Spec.C34
 namespace Pkgcore.Driver.C34
 open Lean Pkgcore.Proto Pkgcore.C34
 
-def matcher (j : Json) (k : String) : Option (Option (List Char → Bool)) :=
-  match j.getObjVal? k with
-  | .ok .null => some none
-  | .ok (.arr a) => do
-    let names ← a.toList.mapM fun x => match x with | .str s => some s.toList | _ => none
-    some (some fun n => names.contains n)
-  | _ => none
+def tokens (j : Json) (k : String) : Option (List (List Char)) := (getStrs j k).map fun l => l.map String.toList
 
-def stmtJson (s : Stmt) : Json :=
-  .arr #[toJson s.isFunc, toJson s.start, toJson s.stop, ofChars s.name, toJson s.filtered]
+/-- the specification's verdict on a name: `some true` = must be removed; `none` = a token is outside the pattern language -/
+def specSel (toks : List (List Char)) (wl : Bool) (name : List Char) : Option Bool :=
+  if toks = [] then some false else Spec.selectsText toks wl name
+
+def optBool : Option Bool → Json
+  | some b => toJson b
+  | none => Json.null
+
+def optChars : Option (List Char) → Json
+  | some s => ofChars s
+  | none => Json.null
 
 def handle : Handler := fun cmd j =>
   match cmd with
   | "c34.run" => do
     let data ← chars j "data"
-    let vm ← matcher j "vars"
-    let fm ← matcher j "funcs"
-    match mainRun data vm fm with
-    | .error .index => pure (Json.str "err:index")
-    | .error .fuel => pure (Json.str "err:fuel")
+    let vt ← tokens j "vtoks"
+    let ft ← tokens j "ftoks"
+    let vwl ← getBool j "vwl"
+    let fwl ← getBool j "fwl"
+    match mainRunNames data vt ft vwl fwl with
+    | .error (.scan .index) => pure (Json.str "err:index")
+    | .error (.scan .fuel) => pure (Json.str "err:fuel")
+    | .error (.sel .noneMatch) => pure (Json.str "err:nonematch")
+    | .error (.sel .unsupported) => pure (Json.str "err:unsupported-regex")
     | .ok (out, r) =>
       let spec := Spec.removeRegions (Spec.filteredRegions r.stmts) data
-      pure (Json.mkObj [("out", ofChars out), ("spec", ofChars spec), ("pos", toJson r.pos),
+      let sels := r.stmts.map fun s => specSel (if s.isFunc then ft else vt) (if s.isFunc then fwl else vwl) s.name
+      let specRegions := (r.stmts.zip sels).filterMap fun (s, b) => if b = some true then some (s.start, s.stop) else none
+      pure (Json.mkObj [("out", ofChars out), ("spec", ofChars spec),
+        ("specsel_out", ofChars (Spec.removeRegions specRegions data)), ("pos", toJson r.pos),
         ("windows", .arr (r.windows.map fun w => Json.arr #[toJson w.1, toJson w.2]).toArray),
-        ("stmts", .arr (r.stmts.map stmtJson).toArray)])
+        ("stmts", .arr ((r.stmts.zip sels).map fun (s, b) =>
+          Json.arr #[toJson s.isFunc, toJson s.start, toJson s.stop, ofChars s.name, toJson s.filtered, optBool b]).toArray),
+        ("vre", optChars (buildRegexString vt vwl)), ("fre", optChars (buildRegexString ft fwl))])
+  | "c34.select" => do
+    -- name selection alone: model (`build_regex_string` + `re.match`) and specification, per name
+    let toks ← tokens j "toks"
+    let wl ← getBool j "wl"
+    let names ← tokens j "names"
+    let re := optChars (buildRegexString toks wl)
+    match mkMatcher toks wl with
+    | .error .noneMatch => pure (Json.str "err:nonematch")
+    | .error .unsupported => pure (Json.str "err:unsupported-regex")
+    | .ok m =>
+      pure (Json.mkObj [("re", re), ("model", .arr (names.map fun n => toJson (applyMatch m n)).toArray),
+        ("spec", .arr (names.map fun n => optBool (specSel toks wl n)).toArray)])
   | _ => none
 end Pkgcore.Driver.C34
